@@ -35,6 +35,7 @@ def lex(text, name="file.c"):
     lx = Lexer(f)
     toks = []
     exc = None
+    excframe = None
     it = iter(lx)
     while True:
         try:
@@ -43,6 +44,9 @@ def lex(text, name="file.c"):
             break
         except BaseException as e:  # noqa
             exc = type(e).__name__
+            import traceback
+            fr = [x for x in traceback.extract_tb(e.__traceback__) if "/norminette/" in x.filename]
+            excframe = fr[-1].name if fr else "?"
             break
         toks.append((t.type, tok_text(t), t.pos[0], t.pos[1], lx._Lexer__pos + 1, t.value is not None))
         if len(toks) > 4 * len(text) + 16:
@@ -51,7 +55,7 @@ def lex(text, name="file.c"):
     diags = []
     for e in f.errors._inner:
         diags.append((e.name, e.level, [(h.lineno, h.column) for h in e.highlights], e.text))
-    return dict(tokens=toks, diags=diags, exc=exc, end=lx._Lexer__pos + 1)
+    return dict(tokens=toks, diags=diags, exc=exc, excframe=excframe, end=lx._Lexer__pos + 1)
 
 
 def run_file(text, name="file.c", debug=0, added=None):
